@@ -496,9 +496,13 @@ impl G {
         attrs
     }
 
-    /// inert attributes of other tools around the deserr ones (the derive has to skip them, wherever they are)
-    fn foreign_attr(&mut self, indent: &str) -> String {
-        let a = *self.rng.pick(&["#[rustfmt::skip]", "#[allow(dead_code)]", "#[doc = \"generated\"]", "#[cfg_attr(all(), allow(unused))]", "/// a doc comment"]);
+    /// inert attributes of other tools around the deserr ones (the derive has to skip them, wherever they are).
+    /// A path-style one (`#[rustfmt::skip]`) is only written where every deserr attribute after it is one
+    /// whose loss still compiles (renames, defaults, deny): a derive that stops reading at such an attribute
+    /// then shows up as wrong behaviour of a program that builds, not as a build failure of the whole workload.
+    fn foreign_attr(&mut self, indent: &str, path_style_ok: bool) -> String {
+        let all = ["#[rustfmt::skip]", "#[allow(dead_code)]", "#[doc = \"generated\"]", "#[cfg_attr(all(), allow(unused))]", "/// a doc comment"];
+        let a = if path_style_ok && self.rng.chance(1, 2) { all[0] } else { *self.rng.pick(&all[1..]) };
         format!("{indent}{a}\n")
     }
 
@@ -507,21 +511,24 @@ impl G {
         if s.is_empty() {
             return s;
         }
+        let lines: Vec<&str> = s.lines().collect();
+        let structural = |l: &str| ["tag =", "where_predicate", "error =", "from(", "validate", "map =", "missing_field_error", "deny_unknown_fields ="].iter().any(|k| l.contains(k));
+        // soft_from[i]: no structural attribute in lines[i..]
+        let soft_from: Vec<bool> = (0..=lines.len()).map(|i| !lines[i..].iter().any(|l| structural(l))).collect();
         let mut out = String::new();
         if self.rng.chance(1, 5) {
-            out.push_str(&self.foreign_attr(indent));
+            out.push_str(&self.foreign_attr(indent, soft_from[0]));
         }
         // between two deserr attributes
-        let lines: Vec<&str> = s.lines().collect();
         for (i, l) in lines.iter().enumerate() {
             if i > 0 && self.rng.chance(1, 4) {
-                out.push_str(&self.foreign_attr(indent));
+                out.push_str(&self.foreign_attr(indent, soft_from[i]));
             }
             out.push_str(l);
             out.push('\n');
         }
         if self.rng.chance(1, 8) {
-            out.push_str(&self.foreign_attr(indent));
+            out.push_str(&self.foreign_attr(indent, true));
         }
         out
     }
